@@ -20,7 +20,7 @@ RULE = ('templates with $repeat at document level (map and list form), as list e
         'non-integer counts must fail. Non-trivial = at least one copy uses its index; distinct = distinct templates.')
 ASSUMPTIONS = ['negative counts, index-independent map keys and $repeat:name as a whole value are not generated (statement silent)']
 
-TOK = re.compile(r'<<([0-9]|N:[A-Za-z]+)>>')
+TOK = re.compile(r'<<([0-9]|N:[A-Za-z]+|REF:[a-z]+)>>')     # REF:key = the document-level index, reached through a key whose value is $repeat
 
 
 def subst(s, env):
@@ -28,7 +28,7 @@ def subst(s, env):
     m = re.fullmatch(r'<<VAL([0-9])>>', s)
     if m:
         return env[m.group(1)]
-    return TOK.sub(lambda mm: str(env[mm.group(1)]), s)
+    return TOK.sub(lambda mm: str(env['0' if mm.group(1).startswith('REF:') else mm.group(1)]), s)
 
 
 def direct(s):
@@ -37,7 +37,8 @@ def direct(s):
         return '$repeat'
     if not TOK.search(s):
         return s
-    return '$"' + TOK.sub(lambda mm: '{$repeat:%s}' % mm.group(1)[2:] if mm.group(1).startswith('N:') else '{$repeat}', s) + '"'
+    return '$"' + TOK.sub(lambda mm: '{$repeat:%s}' % mm.group(1)[2:] if mm.group(1).startswith('N:') else
+                          ('{%s}' % mm.group(1)[4:] if mm.group(1).startswith('REF:') else '{$repeat}'), s) + '"'
 
 
 def render_direct(v):
@@ -153,6 +154,10 @@ def gen_case(rng, i, tier):
     if kind in ('doc', 'nested', 'layered', 'badcount'):
         t = body(rng, 0, kind == 'nested' or rng.random() < 0.3)
         t['$repeat'] = n
+        holders = [k for k, x in t.items() if x == '<<VAL0>>']
+        if holders and rng.random() < 0.5:
+            # an interpolation that reaches the index through a key of the copy whose value is $repeat
+            t['via'] = rng.choice(['host-', '', 'n ']) + '<<REF:%s>>' % rng.choice(holders) + rng.choice(['', '.local', '-<<0>>'])
         if kind == 'badcount':
             t['$repeat'] = rng.choice([1.5, '2', True, [2], {'a': 1.5}, {'a': '1'}, {'a': 0, 'b': 'lots'}, {'a': 2, 'b': 0, 'c': True}, {'a': 0, 'b': 1.5}, {'a': 1, 'b': '2'}, {'b': 0, 'a': 'x'}])
         case['layers'] = [t]
@@ -199,6 +204,7 @@ def fixed_cases(tier):
         out.append({'kind': 'named', 'layers': [{'$repeat': {'b': n}, 'v': 'x<<N:b>>'}]})
     out.append({'kind': 'named', 'layers': [{'$repeat': {'Zone': 2, 'app': 3}, 'v': '<<N:Zone>>/<<N:app>>'}]})
     out.append({'kind': 'named', 'layers': [{'$repeat': {'b': 2, 'B': 2, 'a': 2}, 'v': '<<N:b>><<N:B>><<N:a>>'}]})
+    out.append({'kind': 'doc', 'layers': [{'$repeat': 3, 'idx': '<<VAL0>>', 'name': 'host-<<REF:idx>>'}]})
     out.append({'kind': 'doc', 'layers': [{'$repeat': 2, 'v': 'first\nidx=<<0>>\nlast', 'w': '<<0>>\n'}]})
     out.append({'kind': 'list', 'layers': [{'l': [{'$repeat': 2, 'v': 'a\n<<0>>'}]}]})
     return out
@@ -218,6 +224,8 @@ def check_case(ctx, case):
     res = Result()
     res.labels.add('kind:' + case['kind'])
     layers = case['layers']
+    if '<<REF:' in json.dumps(layers):
+        res.labels.add('index-through-key-reference')
     # merged template (layering only overrides counts / adds plain keys)
     tpl = clone(layers[0])
     try:
